@@ -424,13 +424,48 @@ def _zone_resolution(ctx) -> None:
                f"cache keys {sorted({nun(k) for k in keys})}, zones built {[nun(c) for c in built]}; the interned zone must be keyed by, built "
                f"from and stored under the same `{p}` (e.g. a key of abs({p}) hands the +01:00 zone out for -01:00)", tm.loc(fn))
     sf = im.func("_safe_timezone")
-    src = nun(sf)
-    ctx.ob("ZONE.resolve", "_safe_timezone/hours", "if isinstance(obj, (int, float)):\n        obj = int(obj * 60 * 60)" in src,
-           "a numeric tz argument is a number of hours: int(obj * 60 * 60) seconds", im.loc(sf))
-    ctx.ob("ZONE.resolve", "_safe_timezone/passthrough", "if isinstance(obj, (Timezone, FixedTimezone)):\n        return obj" in src
-           and src.rstrip().endswith("return timezone(obj)"), "pendulum zones pass through, everything else ends in timezone(obj)", im.loc(sf))
-    ctx.ob("ZONE.resolve", "_safe_timezone/other-kind", "offset = obj.utcoffset(dt)" in src and "obj = int(offset.total_seconds())" in src,
-           "a foreign tzinfo without a name is mapped through its utcoffset(dt) in whole seconds", im.loc(sf))
+    # what _safe_timezone hands back for each kind of argument, read off its leaves (pvs/sem.py): the order and the writing of the
+    # tests do not matter, the outcome per kind does
+    from .. import sem
+    try:
+        lv = sem.leaves_of(im, "_safe_timezone")
+        o = core.params(sf, drop_self=False)[0]
+        exits = [(c, it[2]) for c, items in lv for it in items if it[0] == "exit" and it[1] == "return"]
+        if not exits:
+            raise sem.Giveup("no return leaves")
+
+        def where(**atoms):
+            return [(c, v) for c, v in exits if all(c.get(a.replace("OBJ", o)) is t for a, t in atoms.items())]
+        num = [(c, v) for c, v in exits if c.get(f"isinstance({o}, int)") or c.get(f"isinstance({o}, float)")]
+        ctx.ob("ZONE.resolve", "_safe_timezone/hours", bool(num) and all(v == f"timezone(name=int(3600*{o}))" for _, v in num),
+               f"a numeric tz argument is a number of hours, int({o} * 3600) seconds; got {sorted({v for _, v in num})}", im.loc(sf))
+        own = [(c, v) for c, v in exits if c.get(f"isinstance({o}, Timezone)") or c.get(f"isinstance({o}, FixedTimezone)")]
+        ctx.ob("ZONE.resolve", "_safe_timezone/passthrough", bool(own) and all(v == o for _, v in own),
+               f"pendulum zones pass through unchanged; got {sorted({v for _, v in own})}", im.loc(sf))
+        foreign = [(c, v) for c, v in exits if c.get(f"isinstance({o}, _datetime.tzinfo)") or c.get(f"isinstance({o}, datetime.tzinfo)") or c.get(f"isinstance({o}, tzinfo)")]
+        hk, hl = f"hasattr({o}, 'key')", f"hasattr({o}, 'localize')"
+        named_ok = True
+        detail = []
+        for c, v in foreign:
+            if c.get(hk) is True:
+                good = v == f"timezone(name={o}.key)"
+            elif c.get(hl) is True:
+                good = v == f"timezone(name={o}.zone)" and c.get(hk) is False
+            else:
+                # a leaf that does not go by the object's zone name must have established that it has none
+                good = c.get(hk) is False and c.get(hl) is False
+            if not good:
+                named_ok = False
+                detail.append(f"under {{{', '.join(f'{a}={t}' for a, t in sorted(c.items()) if 'hasattr' in a or 'tzname' in a)}}} returns `{v}`")
+        ctx.ob("ZONE.resolve", "_safe_timezone/named", bool(foreign) and named_ok,
+               "a zoneinfo (.key) or pytz (.zone) object is resolved by its zone name before any shortcut: " +
+               ("; ".join(detail[:3]) + " - e.g. ZoneInfo('Etc/UTC') or 'Zulu' would be reported as 'UTC'" if detail else "every other outcome is reached only for objects without a name"),
+               im.loc(sf))
+        other = [v for c, v in foreign if c.get(hk) is False and c.get(hl) is False]
+        ctx.ob("ZONE.resolve", "_safe_timezone/other-kind", f"timezone(name=int({o}.utcoffset(dt).total_seconds()))" in other,
+               f"a foreign tzinfo without a name is mapped through its utcoffset(dt) in whole seconds; outcomes {sorted(set(other))}", im.loc(sf))
+    except (sem.Giveup, RecursionError, KeyError, AttributeError, TypeError, ValueError, IndexError) as e:
+        ctx.unverified("ZONE.resolve", "_safe_timezone", f"leaves not available: {e}", im.loc(sf))
     dm = pmod("datetime")
     acc = {"DateTime.get_offset": None, "DateTime.offset": "self.get_offset()", "DateTime.tz": "self.timezone",
            "DateTime.timezone_name": None, "DateTime.float_timestamp": "self.timestamp()"}
